@@ -11,7 +11,7 @@ CHECKS = {
    text='Every normal return of to_string() observed over an exhaustive core of short histories (all <=3 additions, all <=1-2 additions + one other operation, both intelligent_choice values) and seeded hostile histories on all 94 content models is validated against an independent DFA of the schema. Held on the executions observed; exhaustive only inside the stated core.',
    note='trusts the reference DFAs built from /verif/ref (self-tested; cross-checked against the library templates by C03); children are unchecked minimal instances', ref='7 C01'),
  'C02': dict(cat='exploration', tech='API recorder; oracle = the supplied valid word (reference DFA); exhaustive short words + transition cover + pumped walks',
-   text='All words of each of the 94 reference languages up to length 2 (3/4 thorough), one word per DFA edge and seeded pumped walks are supplied left to right; acceptance, kept order (by identity) and final check are observed. Exhaustive inside the length bound.',
+   text='All words of each of the 94 reference languages up to length 2 (3/4 thorough), one word per DFA edge, seeded pumped walks and long runs (every distinct shortest cycle repeated to ~70/160/400 symbols) are supplied left to right; acceptance, kept order (by identity) and final check are observed. Exhaustive inside the length bound.',
    note='trusts the reference DFAs; parents get required attributes from the reference table', ref='7 C02'),
  'C03': dict(cat='exploration', tech='inspection of live classes after import; oracle = reference model; content models compared as automata (product construction, exact)',
    text='Complete enumeration of the finite translation: 441 element names / 480 declarations, 228 complex types, 45 attribute groups, 27 model groups, 151+ simple types and the loaded schema copies are compared with the independent reference model; the language each per-instance container declares is compared with the reference DFA by exact product construction. exhaustive: true.',
@@ -23,19 +23,19 @@ CHECKS = {
    text='Every simple type is crossed with a pool of several hundred lexical forms (all enumeration literals of all types, boundaries, pattern positives and near misses, whitespace variants) offered as str/int/float through the type classes, a carrying element and a carrying attribute; every acceptance is judged on the emitted text, every reference-valid normalised form on acceptance; every class without character content is offered text.',
    note='direction (b) demands acceptance only if every natural spelling is refused; built-ins modelled from the XSD datatypes spec and from xml.xsd', ref='7 C05'),
  'C08': dict(cat='exploration', tech='infoset comparator over write()/to_string() output vs parse_musicxml(...).to_string(), two round trips; oracle = xml.etree infosets + reference types for numeric tolerance',
-   text='Reference-grammar documents (per element name and whole scores) are built through the API, emitted, re-parsed, compared as infosets (decimal spelling of decimal-typed content tolerated only), round-tripped a second time for byte identity, and parsed integer-typed values are checked to stay int.',
+   text='Reference-grammar documents (per element name and whole scores) are built through the API, emitted, re-parsed, compared as infosets (decimal spelling of decimal-typed content tolerated only), round-tripped a second time for byte identity, and parsed integer-typed values are checked to stay int; large scores (70 KB - 1 MB) dense in multi-byte characters are re-written with padding that makes a character straddle every power-of-two offset from 64 KiB.',
    note='documents the builder refuses are inconclusive (counted in evidence), not violations', ref='7 C08'),
  'C09': dict(cat='exploration', tech='parse_musicxml recorder + infoset equality on library-independent certified-valid text, containment checker on mutated text; failing documents localised and shrunk',
    text='XML text generated without the library from the reference grammar (all attribute forms incl. xml:/xlink:/name=, unusual numeric spellings), real exports, and structure-aware mutations: valid input must load and re-serialise to the same infoset; on any input a returning parser must not have dropped an element, attribute, text or tail.',
    note='surrounding whitespace of string content treated as insignificant (lenient); reference validator certifies validity', ref='7 C09'),
  'C06': dict(cat='exploration', tech='shadow model + invariants evaluated at every public-call boundary (incl. raise path) + exactly-once output count',
-   text='After every operation of every explored history both child views are compared (by identity) with each other and with a sequential shadow model fed by API results only; parents of live and removed children and the per-child count in every serialisation are checked.',
+   text='After every operation of every explored history both child views are compared (by identity) with each other and with a sequential shadow model fed by API results only; parents of live and removed children and the per-child count in every serialisation are checked; long histories (~300 children, late replace / remove) and children offered to classes without content model are included.',
    note='verdicts use public API only; shadow model is 15 lines', ref='7 C06'),
  'C07': dict(cat='exploration', tech='API recorder; oracle = sub-multiset search in the reference DFA after every successful addition',
    text='After every successful addition (add_child or xml_* shortcut) in every explored history the multiset of children is checked to be a sub-multiset of some word of the reference language (exact BFS).',
    note='trusts the reference DFAs', ref='7 C07'),
  'C10': dict(cat='exploration', tech='in-place snapshots around raising calls + differential twin without the failed operations (views, verdict, acceptance vector)',
-   text='Every raising call in every explored history is bracketed by snapshots of both views, attributes and value; the history is then replayed without the failed operations and all observables, the status of each later operation and the acceptance vector over the whole child alphabet are compared.',
+   text='Every raising call in every explored history is bracketed by snapshots of both views, attributes and value; the history is then replayed without the failed operations and all observables, the status of each later operation and the acceptance vector over the whole child alphabet are compared; refused offers of already attached children (own / another element's) must leave receiver, holder and parent link unchanged.',
    note='library raises only (no injected faults); observables through public API', ref='7 C10'),
  'C11': dict(cat='exploration', tech='differential twin: fresh element given only the survivors (verdict/text, order, acceptance vector)',
    text='Every history with removals whose operations all succeed is compared with a fresh element to which only the surviving children were added in the same relative order.',
@@ -44,7 +44,7 @@ CHECKS = {
    text='All permutations (<=120, sampled beyond) of every multiset from words <=4 that has exactly one reference arrangement are added to a fresh element: acceptance, the arrangement, insertion order of same-named children (by identity) and the final check are observed; every rejected addition after accepted additions only is judged by the compatibility oracle. Exhaustive over permutations inside the bound.',
    note='trusts the reference DFAs', ref='7 C12'),
  'C13': dict(cat='exploration', tech='snapshots of instance A around every operation on instance B, solo-replay twin, pristine forked-child fingerprints of templates and fresh-instance behaviour, object-graph disjointness walk',
-   text='Interleavings of 2-4 hostile histories over instances of one class (plus deep copies) in one process: every other instance must be unchanged after each operation and equal to a solo replay at the end; container graphs must be pairwise disjoint and disjoint from the shared template; template and fresh-instance behaviour fingerprints must equal those of a pristine forked child.',
+   text='Interleavings of 2-4 hostile histories over instances of one class (plus deep copies) in one process: every other instance must be unchanged after each operation and equal to a solo replay at the end; container graphs must be pairwise disjoint and disjoint from the shared template; template and fresh-instance behaviour fingerprints must equal those of a pristine forked child; class and message of refused calls on fresh elements must equal those of a pristine interpreter.',
    note='pristine fingerprints are recomputed on every run from the current tree', ref='7 C13'),
  'C14': dict(cat='exploration', tech='text equality of original vs deepcopy, snapshots around the copy, lock-step xsd_check walk, cross-visibility of later mutations',
    text='Reference-grammar trees built through the API or the parser and perturbed after construction (late-set / overwritten / removed attributes, changed values, xsd_check off on random nodes) are deep-copied; copy and original must serialise identically (or refuse identically), the original must be untouched, flags preserved, and mutations of either must not show in the other.',
@@ -53,7 +53,7 @@ CHECKS = {
    text='Every container class x every schema child runs a fixed read/set/replace/remove script through xml_* shortcuts and through add_child/replace_child/remove/value_; every complex class x every attribute compares keyword vs dot assignment and dot reads; seeded mixed sequences are replayed on both surfaces.',
    note='explicit translation = the one the README documents', ref='7 C15'),
  'C16': dict(cat='exploration', tech='xml.etree recovery of XML-Char strings in every text / string attribute position, repeated-call and subtree equality, differential twin without the serialisation calls',
-   text='A battery plus seeded strings over the XML Char range are placed in every text and string-typed attribute position; well-formedness, exact recovery, determinism and subtree-vs-parent equality are checked; histories with serialisations at every position are compared with the same histories without them.',
+   text='A battery plus seeded strings over the XML Char range are placed in every text and string-typed attribute position; well-formedness, exact recovery, determinism and subtree-vs-parent equality are checked; histories with serialisations at every position are compared with the same histories without them; nested documents serialised between mutations are compared with a never-serialised twin; int / float texts must not depend on equal values of the other kind serialised earlier.',
    note='xml.etree is the standard parser; only accepted strings are judged', ref='7 C16'),
  'C17': dict(cat='fault_enumeration', tech='fault enumeration: every node failing in turn x prior destination states; exception injected at every library LINE event inside write() (sys.monitoring); audit hook on open; subprocesses under ASCII/emulated Latin-1/cp1252 defaults; EncodingWarning as error; strace (thorough)',
    text='Every node of generated valid scores is made to fail its check in turn and write() is called for each prior state of the destination (bytes compared); a private exception is raised at every library line executed inside write() before the text exists; successful writes are compared byte-for-byte with declaration + to_string() in UTF-8; the import/write/parse scenario is repeated under each default encoding.',
@@ -65,7 +65,7 @@ CHECKS = {
    text='All hostile history profiles on all content models plus a misuse battery on every class (every declared attribute with good/bad values, undeclared names, non-element children, the same child twice, foreign parents, non-children, bare to_string with both flags, values of every Python kind) and wide trees run under the classifier, the stdio proxies and the step budget.',
    note='documented families per the property text; step budget 3e6 function entries per call', ref='7 C19'),
  'C20': dict(cat='exploration', tech='two-thread scheduler on sys.monitoring LINE events: one pre-emption at every executed library line of a first use, each schedule in a child forked from a pristine parent; plus free-running stress',
-   text='For each chosen class, thread A is pre-empted once at every library line of its first use while thread B completes its own first use (same class / class sharing attributes); both results are compared with the single-threaded result from a pristine child. Exhaustive over the one-pre-emption schedule family (stride in quick).',
+   text='For each chosen class, thread A is pre-empted once at every library line of its first use while thread B completes its own first use (same class / class sharing attributes); both results (text, exception, answers to refused and equal-value-of-another-kind probes) are compared with the single-threaded result from a pristine child. Exhaustive over the one-pre-emption schedule family (stride in quick).',
    note='covers the schedule family the property names, not all interleavings', ref='7 C20'),
 }
 PENDING = ['C03', 'C04', 'C05', 'C08', 'C09', 'C12', 'C13', 'C14', 'C15', 'C16', 'C17', 'C18', 'C19', 'C20']
